@@ -2,6 +2,7 @@
 """C05 -- A part type accepts exactly the records with its signature overhangs."""
 from __future__ import annotations
 
+import ast
 import random
 
 from pyvc import term as tm
@@ -38,6 +39,32 @@ def iupac_match(sig, text):
     return len(sig) == len(text) and all(t.upper() in gen.IUPAC[s.upper()] or (s.upper() == "N" and t.upper() == "N") for s, t in zip(sig, text))
 
 
+def derives_from_signature(cls, core):
+    """the class's structure() is the one AbstractPart computes from the signature: resolving `structure` along the
+    MRO reaches AbstractPart.structure, possibly through overrides that only delegate (`return super(X, cls).structure()`)"""
+    import inspect
+    import textwrap
+    for k in cls.__mro__:
+        if "structure" not in k.__dict__:
+            continue
+        if k is core.AbstractPart:
+            return True
+        try:
+            fn = k.__dict__["structure"]
+            fn = getattr(fn, "__func__", fn)
+            tree = ast.parse(textwrap.dedent(inspect.getsource(fn)))
+            body = [b for b in tree.body[0].body if not (isinstance(b, ast.Expr) and isinstance(b.value, ast.Constant))]
+            ok = (len(body) == 1 and isinstance(body[0], ast.Return) and isinstance(body[0].value, ast.Call)
+                  and isinstance(body[0].value.func, ast.Attribute) and body[0].value.func.attr == "structure"
+                  and isinstance(body[0].value.func.value, ast.Call) and getattr(body[0].value.func.value.func, "id", "") == "super"
+                  and not body[0].value.args)
+        except Exception:
+            ok = False
+        if not ok:
+            return False
+    return False
+
+
 def literal(ctx):
     """C: every signature-typed kit class -- its real structure() is the generic structure of its enzyme and role with
     the signature in groups 1 and 3"""
@@ -52,7 +79,7 @@ def literal(ctx):
         if not issubclass(cls, core.AbstractPart) or cls.signature is NotImplemented:
             continue
         # classes that override structure() by hand are C04's subject; here: those deriving it from the signature
-        if "structure" in cls.__dict__ or any("structure" in k.__dict__ for k in cls.__mro__[1:] if k is not core.AbstractPart and issubclass(k, core.AbstractPart) and k.__module__.startswith("moclo.kits")):
+        if not derives_from_signature(cls, core):
             continue
         name = cls.cutter.__name__
         info = table.get(name)
@@ -147,7 +174,7 @@ def bounded(ctx):
         return len(starts) == 1
 
     for cls in sig_classes:
-        if "structure" in cls.__dict__:
+        if not derives_from_signature(cls, core):
             continue
         site, a, k = be.enzyme_geometry(cls.cutter)
         members = be.class_records(cls, rng, count=2)
@@ -167,7 +194,7 @@ def bounded(ctx):
                             check(cls, s[:q] + ch + s[q + 1:], "near-miss %s[%d]=%s" % (which, j, ch))
         # siblings' members and generic modules with random overhangs
         for other in rng.sample(sig_classes, min(len(sig_classes), 3 if ctx.tier == "quick" else 10)):
-            if other is not cls and "structure" not in other.__dict__ and other.cutter is cls.cutter and issubclass(other, core.AbstractModule) == issubclass(cls, core.AbstractModule):
+            if other is not cls and derives_from_signature(other, core) and other.cutter is cls.cutter and issubclass(other, core.AbstractModule) == issubclass(cls, core.AbstractModule):
                 for s in be.class_records(other, rng, count=1):
                     check(cls, s, "member of %s" % other.__name__)
         for s in be.class_records(generic_for(cls), rng, count=2):
@@ -232,8 +259,46 @@ def bounded(ctx):
 
 
 def replay(ctx, ob, model):
+    if ob.meta.get("clause") == "signature-structure":
+        return replay_literal(ctx, ob)
     from contracts.replays import replay as r
     return r(ctx, ob, model)
+
+
+def replay_literal(ctx, ob):
+    """a literal obligation C05.C1 failed: instances of the expected (generic + signature) structure and of the observed
+    one are typed natively by the part class and by the signature-free class of the same enzyme"""
+    from pyvc import native
+    from Bio.Seq import Seq
+    ns = native.load(ctx.repo_root)
+    kits = native.kits(ctx.repo_root)
+    core = ns["moclo.core"]
+    CircularRecord = ns["moclo.record"].CircularRecord
+    cls = next((c for c in gen.concrete_classes(kits) if c.__name__ == ob.meta.get("function")), None)
+    if cls is None:
+        return None, "class not found"
+    role_mod = issubclass(cls, core.AbstractModule)
+    Generic = type("Generic", (core.Entry if role_mod else core.EntryVector,), dict(cutter=cls.cutter))
+    rng = random.Random(3)
+    site, a, k = be.enzyme_geometry(cls.cutter)
+    for which in ("expected", "observed"):
+        pat = ob.meta.get(which) or ""
+        for _ in range(6):
+            try:
+                text, _spans = gen.instance(pat, rng, run=8, avoid=(site, gen.rc(site)))
+            except Exception:
+                break
+            text = text + ba.clean(rng, 12, cls.cutter)
+            g = be.observe_entity(Generic(CircularRecord(Seq(text), id="r")))
+            p = be.observe_entity(cls(CircularRecord(Seq(text), id="r")))
+            want = g["valid"] is True and iupac_match(cls.signature[0], g["overhang_start"]) and iupac_match(
+                cls.signature[1], g["overhang_end"])
+            if (p["valid"] is True) != want:
+                return True, dict(call="%s(CircularRecord(Seq(%r))).is_valid()" % (cls.__name__, text), observed=p["valid"],
+                                  expected=want, generic=dict(valid=g["valid"], overhang_start=g.get("overhang_start"),
+                                                              overhang_end=g.get("overhang_end")),
+                                  signature=list(cls.signature), instance_of=which + " structure " + pat)
+    return False, dict(note="no instance of the expected/observed structure is typed differently")
 
 
 LEVEL_TEXT = ("Deductive: AbstractPart.structure is executed symbolically for every enzyme geometry of Bio.Restriction and both "
